@@ -170,16 +170,19 @@ Proof.
   apply IH; [exact Hr|]. unfold is_plain_digit in Hc. lia.
 Qed.
 
-Lemma is_valid_index_nil : is_valid_index [] = IOk 0 false.
+Lemma zlen_zero_cons {A} (x : A) l : (zlen (x :: l) =? 0) = false.
+Proof. rewrite zlen_cons. pose proof (zlen_nonneg l). apply Z.eqb_neq. lia. Qed.
+
+Lemma is_valid_index_nil : is_valid_index [] = IErr EINVAL.
 Proof. reflexivity. Qed.
 
 Lemma is_valid_index_nonneg tok idx sat : is_valid_index tok = IOk idx sat -> 0 <= idx.
 Proof.
   unfold is_valid_index. destruct tok as [|c r].
-  - cbn. intros H. inversion H. lia.
+  - cbn. discriminate.
   - rewrite zlen_one_iff. destruct r as [|d r].
     + destruct (is_plain_digit c) eqn:E; [|discriminate]. intros H. inversion H. unfold is_plain_digit in E. lia.
-    + unfold idx_reject_empty. cbn [hd]. destruct (c =? 48); [discriminate|].
+    + rewrite zlen_zero_cons. cbn [hd]. destruct (c =? 48); [discriminate|].
       destruct (forallb is_plain_digit (c :: d :: r)) eqn:F; cbn [negb]; [|discriminate].
       unfold strtoull10. pose proof (dec_acc_nonneg _ 0 F ltac:(lia)) as Hn.
       destruct (dec_acc 0 (c :: d :: r) >? UINT64_MAX); intros H; inversion H; subst; [unfold UINT64_MAX; lia|exact Hn].
@@ -206,20 +209,20 @@ Proof.
     + unfold is_plain_digit. replace ((48 <=? c) && (c <=? 57)) with true by lia.
       cbn [dec_value zlen]. replace ((c - 48) * 10 ^ 0 + 0) with (c - 48) by lia.
       replace (c - 48 >? UINT64_MAX) with false by (unfold UINT64_MAX; lia). reflexivity.
-    + unfold idx_reject_empty. cbn [hd]. rewrite E0, Hd. cbn [negb]. unfold strtoull10.
+    + rewrite zlen_zero_cons. cbn [hd]. rewrite E0, Hd. cbn [negb]. unfold strtoull10.
       rewrite dec_acc_value, Z.mul_0_l, Z.add_0_l.
       destruct (dec_value (c :: d :: r) >? UINT64_MAX); reflexivity.
 Qed.
 
-Lemma index_none tok : array_index tok = None -> tok = [] \/ is_valid_index tok = IErr EINVAL.
+Lemma index_none tok : array_index tok = None -> is_valid_index tok = IErr EINVAL.
 Proof.
-  destruct tok as [|c r]; [auto|]. intros H. right. unfold array_index in H. unfold is_valid_index.
+  destruct tok as [|c r]; [reflexivity|]. intros H. unfold array_index in H. unfold is_valid_index.
   rewrite zlen_one_iff. destruct (c =? 48) eqn:E0.
-  - destruct r as [|d r]; [discriminate|]. unfold idx_reject_empty. cbn [hd]. rewrite E0. reflexivity.
+  - destruct r as [|d r]; [discriminate|]. rewrite zlen_zero_cons. cbn [hd]. rewrite E0. reflexivity.
   - destruct ((49 <=? c) && (c <=? 57) && forallb digit r) eqn:E; [discriminate|].
     destruct r as [|d r].
     + cbn [forallb] in E. unfold is_plain_digit. replace ((48 <=? c) && (c <=? 57)) with false by lia. reflexivity.
-    + unfold idx_reject_empty. cbn [hd]. rewrite E0.
+    + rewrite zlen_zero_cons. cbn [hd]. rewrite E0.
       replace (forallb is_plain_digit (c :: d :: r)) with false; [reflexivity|].
       rewrite <- forallb_digit_same in E. cbn [forallb] in *.
       set (b := is_plain_digit d && forallb is_plain_digit r) in *. clearbody b.
@@ -254,6 +257,15 @@ Lemma dash_not_index tok : is_dash tok = true -> array_index tok = None.
 Proof.
   destruct tok as [|c [|d r]]; try discriminate. cbn [is_dash]. intros H. unfold array_index.
   replace (c =? 48) with false by lia. replace ((49 <=? c) && (c <=? 57) && forallb digit []) with false by (cbn; lia). reflexivity.
+Qed.
+
+(* is_valid_escaping (one byte at a time) is the RFC's syntax of a reference token *)
+Lemma is_valid_escaping_ok : forall s, is_valid_escaping s = escapes_ok s.
+Proof.
+  induction s as [|c t IH]; [reflexivity|]. cbn [is_valid_escaping escapes_ok].
+  destruct (c =? 126); cbn [andb]; [|exact IH].
+  destruct t as [|d u]; [reflexivity|]. destruct ((d =? 48) || (d =? 49)) eqn:E; cbn [negb andb]; [|reflexivity].
+  rewrite IH. cbn [escapes_ok]. replace (d =? 126) with false by lia. reflexivity.
 Qed.
 
 (* ================================================================ objects *)
@@ -405,67 +417,41 @@ Proof.
   unfold array_put. replace (i <? zlen l) with true by lia. apply map_nth_set. rewrite <- znth_nat by lia. exact H.
 Qed.
 
-(* ================================================================ lookup: the guards *)
+(* ================================================================ lookup *)
 
-(* The places where json_pointer.c is known to leave RFC 6901, as decidable predicates on one
-   step of the walk (current node, token, is it the pointer's last token). *)
+(* The only side condition left after the repairs of json_pointer.c: the representation bound
+   of the C array (its length is a size_t, and an index token is saturated at ULLONG_MAX),
+   checked on the arrays the walk passes. *)
+Definition step_repr (n : jv) : bool :=
+  match n with JArr l => zlen l <=? SIZE_MAX | _ => true end.
 
-(* a JSON null array element is reported as "not found" (observable when it is the target) *)
-Definition null_elem_hit (l : list jv) (tok : list byte) (last : bool) : bool :=
-  last && match array_index tok with
-          | Some i => match znth l i with Some JNull => true | _ => false end
-          | None => false
-          end.
-
-(* the empty token is taken for index 0 (observable when element 0 exists and is not null) *)
-Definition empty_index_hit (l : list jv) (tok : list byte) : bool :=
-  match tok, l with [], x :: _ => elem_is_target x | _, _ => false end.
-
-(* a '~' not followed by '0' or '1' is kept (observable when a member of that name exists) *)
-Definition bad_escape_hit (ms : list (list byte * jv)) (tok : list byte) : bool :=
-  negb (escapes_ok tok) && match object_get ms (unescape_in_place tok) with Some _ => true | None => false end.
-
-Definition step_guard (n : jv) (tok : list byte) (last : bool) : bool :=
-  match n with
-  | JArr l => (zlen l <=? SIZE_MAX)          (* the C array's length is a size_t *)
-              && negb (empty_index_hit l tok) && negb (null_elem_hit l tok last)
-  | JObj ms => negb (bad_escape_hit ms tok)
-  | _ => true
-  end.
-
-Definition is_nil {A} (l : list A) : bool := match l with [] => true | _ => false end.
-
-(* along the walk the model performs; [final]: the last token of [toks] is the pointer's last *)
-Fixpoint walk_guard (final : bool) (n : jv) (toks : list (list byte)) : bool :=
+Fixpoint walk_repr (n : jv) (toks : list (list byte)) : bool :=
   match toks with
   | [] => true
   | tok :: rest =>
-      step_guard n tok (final && is_nil rest) &&
+      step_repr n &&
       match get_single_path n tok with
-      | SPOk _ c => walk_guard final c rest
+      | SPOk _ c => walk_repr c rest
       | SPErr _ => true
       end
   end.
 
-Definition get_guard (t : jv) (p : list byte) : bool :=
+Definition get_repr (t : jv) (p : list byte) : bool :=
   match p with
-  | c :: s => if c =? 47 then walk_guard true t (split_slash s) else true
+  | c :: s => if c =? 47 then walk_repr t (split_slash s) else true
   | [] => true
   end.
 
-Lemma step_conforms n tok last :
-  step_guard n tok last = true ->
+Lemma step_conforms n tok :
+  step_repr n = true ->
   match get_single_path n tok with
   | SPOk st c => spec_step n tok = Some (st, c) /\ escapes_ok tok = true
-  | SPErr e => (e = ENOENT \/ e = EINVAL) /\
-               (spec_step n tok = None \/ (last = false /\ exists st, spec_step n tok = Some (st, JNull)))
+  | SPErr e => (e = ENOENT \/ e = EINVAL) /\ (spec_step n tok = None \/ escapes_ok tok = false)
   end.
 Proof.
-  unfold step_guard. destruct n as [| | | | | |l|ms]; intros G;
-    try (cbn; split; [auto|left; reflexivity]).
+  unfold step_repr. destruct n as [| | | | | |l|ms]; intros G;
+    try solve [unfold get_single_path, spec_step; rewrite is_valid_escaping_ok; destruct (escapes_ok tok); cbn; auto].
   - (* array *)
-    apply andb_true_iff in G. destruct G as [G Gn]. apply andb_true_iff in G. destruct G as [Gl Ge].
-    apply negb_true_iff in Ge. apply negb_true_iff in Gn.
     unfold get_single_path, spec_step. destruct (array_index tok) as [i|] eqn:Ei.
     + destruct (index_some _ _ Ei) as (Hi & Hne & Hv). rewrite Hv.
       destruct (i >? UINT64_MAX) eqn:Esat.
@@ -474,56 +460,38 @@ Proof.
       * destruct (i >=? zlen l) eqn:Eil.
         { rewrite znth_none_ge by lia. auto. }
         destruct (znth_in_range l i ltac:(lia)) as [v Hv']. rewrite Hv'.
-        destruct (elem_is_target v) eqn:Et.
-        { split; [reflexivity|]. eapply index_escapes_ok; eauto. }
-        destruct v; try discriminate. split; [auto|]. right.
-        unfold null_elem_hit in Gn. rewrite Ei, Hv' in Gn. rewrite andb_true_r in Gn. eauto.
-    + destruct (index_none _ Ei) as [-> | Hv].
-      * rewrite is_valid_index_nil. destruct l as [|x l'].
-        { cbn. auto. }
-        replace (0 >=? zlen (x :: l')) with false by (rewrite zlen_cons; pose proof (zlen_nonneg l'); lia).
-        cbn [znth Z.ltb Z.compare Z.to_nat nth_error]. cbn in Ge. rewrite Ge. auto.
-      * rewrite Hv. auto.
+        split; [reflexivity|]. eapply index_escapes_ok; eauto.
+    + rewrite (index_none _ Ei). auto.
   - (* object *)
-    apply negb_true_iff in G. unfold bad_escape_hit in G.
-    unfold get_single_path, spec_step, member_token_ok. cbn [negb].
-    rewrite unescape_two_pass_eq_single in *. rewrite object_get_member in *.
-    destruct (member ms (unescape tok)) as [v|].
-    + split; [reflexivity|]. rewrite andb_true_r in G. apply negb_false_iff in G. exact G.
-    + auto.
+    unfold get_single_path, spec_step. rewrite is_valid_escaping_ok.
+    destruct (escapes_ok tok) eqn:E; cbn [negb]; [|auto].
+    rewrite unescape_two_pass_eq_single, object_get_member.
+    destruct (member ms (unescape tok)) as [v|]; auto.
 Qed.
 
-Lemma spec_walk_null tok rest : spec_walk JNull (tok :: rest) = None.
-Proof. reflexivity. Qed.
-
-Lemma walk_conforms final : forall toks n,
-  walk_guard final n toks = true ->
+Lemma walk_conforms : forall toks n,
+  walk_repr n toks = true ->
   match get_walk n toks with
   | GOk path x => spec_walk n toks = Some (path, x) /\ forallb escapes_ok toks = true
-  | GErr e => (e = ENOENT \/ e = EINVAL) /\
-              (spec_walk n toks = None \/ (final = false /\ exists path, spec_walk n toks = Some (path, JNull)))
+  | GErr e => (e = ENOENT \/ e = EINVAL) /\ (spec_walk n toks = None \/ forallb escapes_ok toks = false)
   end.
 Proof.
   induction toks as [|tok rest IH]; intros n G.
   - cbn. auto.
-  - cbn [walk_guard] in G. apply andb_true_iff in G. destruct G as [Gs Gr].
-    pose proof (step_conforms _ _ _ Gs) as S. cbn [get_walk spec_walk forallb].
+  - cbn [walk_repr] in G. apply andb_true_iff in G. destruct G as [Gs Gr].
+    pose proof (step_conforms _ tok Gs) as S. cbn [get_walk spec_walk forallb].
     destruct (get_single_path n tok) as [st c|e].
     + destruct S as [S Es]. rewrite S, Es. specialize (IH c Gr).
       destruct (get_walk c rest) as [path x|e].
       * destruct IH as [W Er]. rewrite W, Er. auto.
-      * destruct IH as [He [W | [Hf [path W]]]]; rewrite W; eauto.
-    + destruct S as [He [S | [Hl [st S]]]].
-      * rewrite S. auto.
-      * rewrite S. apply andb_false_iff in Hl. destruct Hl as [Hf | Hnil].
-        -- destruct rest as [|tok' rest']; [|rewrite spec_walk_null; auto].
-           cbn. split; [exact He|]. right. eauto.
-        -- destruct rest as [|tok' rest']; [discriminate|]. rewrite spec_walk_null. auto.
+      * destruct IH as [He [W | W]]; rewrite W; auto.
+    + destruct S as [He [S | S]]; rewrite S; auto.
 Qed.
 
-(* lookup conforms to RFC 6901 outside the recorded defect sites *)
-Theorem get_conforms_partial : forall t p,
-  t <> JNull -> get_guard t p = true ->
+(* lookup conforms to RFC 6901: it succeeds exactly when evaluation succeeds, with the same
+   location and node; otherwise ENOENT / EINVAL *)
+Theorem get_conforms : forall t p,
+  t <> JNull -> get_repr t p = true ->
   match ptr_get t p with
   | GOk path n => spec_get t p = Some (path, n)
   | GErr e => spec_get t p = None /\ (e = ENOENT \/ e = EINVAL)
@@ -531,31 +499,33 @@ Theorem get_conforms_partial : forall t p,
 Proof.
   intros t p Hn G. unfold ptr_get. replace (is_null t) with false by (destruct t; congruence || reflexivity).
   destruct p as [|c s]; [reflexivity|]. unfold get_recursive, spec_get, parse_pointer.
-  cbn [get_guard] in G. destruct (c =? 47); [|auto].
-  rewrite tokenize_split. pose proof (walk_conforms true _ _ G) as W.
+  cbn [get_repr] in G. destruct (c =? 47); [|auto].
+  rewrite tokenize_split. pose proof (walk_conforms _ _ G) as W.
   destruct (get_walk t (split_slash s)) as [path n|e].
   - destruct W as [W E]. rewrite E. exact W.
-  - destruct W as [He [W | [Hf _]]]; [|discriminate]. split; [|exact He].
-    destruct (forallb escapes_ok (split_slash s)); [exact W|reflexivity].
+  - destruct W as [He [W | W]]; (split; [|exact He]).
+    + destruct (forallb escapes_ok (split_slash s)); [exact W|reflexivity].
+    + rewrite W. reflexivity.
 Qed.
 
 (* errors of lookup: not-found or invalid-argument, for every tree and pointer *)
 Lemma gsp_errno n tok e : get_single_path n tok = SPErr e -> e = ENOENT \/ e = EINVAL.
 Proof.
-  unfold get_single_path, member_token_ok. destruct n as [| | | | | |l|ms]; cbn [negb];
-    try solve [intros H; inversion H; auto].
+  unfold get_single_path. destruct n as [| | | | | |l|ms];
+    try solve [destruct (negb (is_valid_escaping tok)); intros H; inversion H; auto].
   - unfold is_valid_index.
     destruct (zlen tok =? 1).
     { destruct tok as [|c r]; [intros H; inversion H; auto|]. destruct (is_plain_digit c).
       - destruct (c - 48 >=? zlen l); [intros H; inversion H; auto|].
-        destruct (znth l (c - 48)) as [v|]; [destruct (elem_is_target v)|]; intros H; inversion H; auto.
+        destruct (znth l (c - 48)) as [v|]; intros H; inversion H; auto.
       - intros H; inversion H; auto. }
-    destruct (idx_reject_empty tok); [intros H; inversion H; auto|].
+    destruct (zlen tok =? 0); [intros H; inversion H; auto|].
     destruct (hd 0 tok =? 48); [intros H; inversion H; auto|].
     destruct (negb (forallb is_plain_digit tok)); [intros H; inversion H; auto|].
     destruct (strtoull10 tok) as [v sat]. destruct (v >=? zlen l); [intros H; inversion H; auto|].
-    destruct (znth l v) as [x|]; [destruct (elem_is_target x)|]; intros H; inversion H; auto.
-  - destruct (object_get ms (unescape_in_place tok)); intros H; inversion H; auto.
+    destruct (znth l v) as [x|]; intros H; inversion H; auto.
+  - destruct (negb (is_valid_escaping tok)); [intros H; inversion H; auto|].
+    destruct (object_get ms (unescape_in_place tok)); intros H; inversion H; auto.
 Qed.
 
 Lemma walk_errno : forall toks n e, get_walk n toks = GErr e -> e = ENOENT \/ e = EINVAL.
@@ -572,15 +542,27 @@ Proof.
   destruct p as [|c s]; [discriminate|]. unfold get_recursive. destruct (c =? 47); [apply walk_errno|intros H; inversion H; auto].
 Qed.
 
+(* what a successful step is *)
+Lemma gsp_ok_inv n tok st c : get_single_path n tok = SPOk st c ->
+  (exists l idx sat, n = JArr l /\ is_valid_index tok = IOk idx sat /\ st = inr idx /\ znth l idx = Some c) \/
+  (exists ms, n = JObj ms /\ is_valid_escaping tok = true /\ st = inl (unescape_in_place tok) /\
+              member ms (unescape_in_place tok) = Some c).
+Proof.
+  unfold get_single_path. destruct n as [| | | | | |l|ms];
+    try solve [destruct (negb (is_valid_escaping tok)); discriminate].
+  - destruct (is_valid_index tok) as [idx sat|] eqn:V; [|discriminate].
+    destruct (idx >=? zlen l); [discriminate|]. destruct (znth l idx) as [v|] eqn:E; [|discriminate].
+    intros H. inversion H. subst. left. eauto 10.
+  - destruct (is_valid_escaping tok) eqn:V; cbn [negb]; [|discriminate].
+    rewrite object_get_member. destruct (member ms (unescape_in_place tok)) as [v|] eqn:E; [|discriminate].
+    intros H. inversion H. subst. right. eauto 10.
+Qed.
+
 (* a successful lookup returns the node that sits at the reported location *)
 Lemma gsp_ok n tok st c : get_single_path n tok = SPOk st c -> node_at n [st] = Some c.
 Proof.
-  unfold get_single_path, member_token_ok. destruct n as [| | | | | |l|ms]; cbn [negb]; try discriminate.
-  - destruct (is_valid_index tok) as [idx sat|]; [|discriminate].
-    destruct (idx >=? zlen l); [discriminate|]. destruct (znth l idx) as [v|] eqn:E; [|discriminate].
-    destruct (elem_is_target v); [|discriminate]. intros H. inversion H. subst. cbn. rewrite E. reflexivity.
-  - rewrite object_get_member. destruct (member ms (unescape_in_place tok)) as [v|] eqn:E; [|discriminate].
-    intros H. inversion H. subst. cbn. rewrite E. reflexivity.
+  intros H. destruct (gsp_ok_inv _ _ _ _ H) as [(l & idx & sat & -> & _ & -> & E) | (ms & -> & _ & -> & E)];
+    cbn; rewrite E; reflexivity.
 Qed.
 
 Lemma node_at_cons n st r c : node_at n [st] = Some c -> node_at n (st :: r) = node_at c r.
@@ -660,25 +642,10 @@ Proof.
     rewrite (subst_put_child _ _ _ _ _ _ S). reflexivity.
 Qed.
 
-(* the last-token sites: what the raw token is used for *)
-Definition last_guard (parent : jv) (tok : list byte) : bool :=
-  match parent with
-  | JArr _ => negb (is_nil tok)          (* the empty token is taken for index 0 *)
-  | JObj _ => negb (has_tilde tok)       (* the token as written becomes the member name *)
-  | _ => true
-  end.
-
-Definition set_guard (t : jv) (p : list byte) : bool :=
+(* the representation bound on the arrays the walk to the parent passes *)
+Definition set_repr (t : jv) (p : list byte) : bool :=
   match p with
-  | c :: s =>
-      if c =? 47 then
-        let toks := split_slash s in
-        walk_guard false t (removelast toks) &&
-        match get_walk t (removelast toks) with
-        | GOk _ parent => last_guard parent (last toks [])
-        | GErr _ => true
-        end
-      else true
+  | c :: s => if c =? 47 then walk_repr t (removelast (split_slash s)) else true
   | [] => true
   end.
 
@@ -687,14 +654,13 @@ Definition no_room (al : alloc) (e : errno) : Prop :=
   (e = ENOMEM \/ e = E_NONE \/ e = ERANGE) /\ exists need, al need = false \/ need > SIZE_MAX / 8.
 
 Lemma place_conforms al parent tok v :
-  last_guard parent tok = true ->
   match set_single_path array_put_idx_cb al parent tok v with
   | SOk parent' => spec_place parent tok v = Some parent' /\ escapes_ok tok = true
-  | SErr e => (spec_place parent tok v = None /\ (e = ENOENT \/ e = EINVAL)) \/ no_room al e
+  | SErr e => ((spec_place parent tok v = None \/ escapes_ok tok = false) /\ (e = ENOENT \/ e = EINVAL)) \/ no_room al e
   end.
 Proof.
-  unfold last_guard, set_single_path, spec_place, member_token_ok, set_member_name.
-  destruct parent as [| | | | | |l|ms]; intros G; cbn [negb]; auto.
+  unfold set_single_path, spec_place.
+  destruct parent as [| | | | | |l|ms]; auto.
   - change (is_minus tok) with (is_dash tok). destruct (is_dash tok) eqn:Ed.
     + unfold array_add. destruct (al (zlen l + 1)) eqn:Ea.
       * split; [reflexivity|]. apply dash_escapes_ok; exact Ed.
@@ -714,26 +680,26 @@ Proof.
         destruct (al (i + 1)) eqn:E4.
         { rewrite array_put_arr_put by lia. split; [reflexivity|]. eapply index_escapes_ok; eauto. }
         right. split; [cbn; auto|]. exists (i + 1). auto.
-      * destruct (index_none _ Ei) as [-> | Hv]; [discriminate|]. rewrite Hv. auto.
-  - apply negb_true_iff in G. destruct (unescape_no_tilde _ G) as [Hu He]. rewrite Hu, object_add_upsert. auto.
+      * rewrite (index_none _ Ei). auto.
+  - rewrite is_valid_escaping_ok. destruct (escapes_ok tok) eqn:E; cbn [negb]; [|auto].
+    rewrite unescape_two_pass_eq_single, object_add_upsert. auto.
 Qed.
 
 (* set places the value where RFC 6901 evaluation of the pointer leads (member named by the
-   unescaped last token, array index, or the end for "-"), outside the recorded defect sites;
-   it can fail in addition only for lack of room in an array *)
-Theorem set_places_exactly_partial : forall al t p v,
-  set_guard t p = true ->
+   unescaped last token, array index, or the end for "-"); besides the RFC's own failures it
+   can fail only for lack of room in an array *)
+Theorem set_places_exactly : forall al t p v,
+  set_repr t p = true ->
   match ptr_set al t p v with
   | SOk t' => spec_set t p v = Some t'
   | SErr e => (spec_set t p v = None /\ (e = ENOENT \/ e = EINVAL)) \/ no_room al e
   end.
 Proof.
   intros al t p v G. unfold ptr_set. destruct p as [|c s]; [reflexivity|].
-  cbn [set_guard] in G. unfold spec_set, parse_pointer.
+  cbn [set_repr] in G. unfold spec_set, parse_pointer.
   destruct (c =? 47) eqn:Ec.
   2:{ unfold ptr_set_with_array_cb. rewrite Ec. cbn [negb]. auto. }
   apply Z.eqb_eq in Ec. subst c. rewrite ptr_set_unfold, tokenize_split.
-  cbv zeta in G. apply andb_true_iff in G. destruct G as [Gw Gl].
   set (toks := split_slash s) in *.
   assert (Ht : toks = removelast toks ++ [last toks []]) by apply tokens_split_last.
   set (ptoks := removelast toks) in *. set (tok := last toks []) in *. clearbody ptoks tok. rewrite Ht.
@@ -742,17 +708,18 @@ Proof.
                          = if forallb escapes_ok x then spec_set_walk t x v else None)
     by (intros x; destruct (forallb escapes_ok x); reflexivity).
   rewrite Hs, forallb_app. cbn [forallb]. rewrite spec_set_walk_app. clear Hs.
-  pose proof (walk_conforms false _ _ Gw) as W.
+  pose proof (walk_conforms _ _ G) as W.
   destruct (get_walk t ptoks) as [ppath parent|e].
   - destruct W as [W Ep]. rewrite W, Ep.
-    pose proof (place_conforms al parent tok v Gl) as P.
+    pose proof (place_conforms al parent tok v) as P.
     destruct (set_single_path array_put_idx_cb al parent tok v) as [parent'|e].
     + destruct P as [P Et]. rewrite P, Et. reflexivity.
-    + destruct P as [[P He]|R]; [|auto]. left. split; [|exact He]. rewrite P.
-      destruct (true && (escapes_ok tok && true)); reflexivity.
-  - left. destruct W as [He [W | [_ [path W]]]]; (split; [|exact He]); rewrite W.
+    + destruct P as [[[P|P] He]|R]; [| |auto]; left; (split; [|exact He]); rewrite P.
+      * destruct (true && (escapes_ok tok && true)); reflexivity.
+      * reflexivity.
+  - left. destruct W as [He [W | W]]; (split; [|exact He]); rewrite W.
     + destruct (forallb escapes_ok ptoks && (escapes_ok tok && true)); reflexivity.
-    + cbn. destruct (forallb escapes_ok ptoks && (escapes_ok tok && true)); reflexivity.
+    + reflexivity.
 Qed.
 
 (* ================================================================ set, then get *)
@@ -771,39 +738,25 @@ Proof.
     destruct (get_walk x b); reflexivity.
 Qed.
 
-Lemma subst_nonnull : forall p new c,
-  elem_is_target c = true -> elem_is_target new = true -> elem_is_target (subst_at p new c) = true.
-Proof.
-  destruct p as [|[k|i] r]; intros new c Hc Hn; cbn [subst_at]; [exact Hn| |].
-  - destruct c; try exact Hc; reflexivity.
-  - destruct c; try exact Hc. destruct (i <? 0); reflexivity.
-Qed.
-
 Lemma zlen_map_nth f n (l : list jv) : zlen (map_nth n f l) = zlen l.
 Proof. rewrite !zlen_length, map_nth_length. reflexivity. Qed.
 
 (* the walk that found the parent finds the replaced parent in the new tree *)
 Lemma walk_subst : forall ptoks n ppath parent parent',
-  get_walk n ptoks = GOk ppath parent -> elem_is_target parent' = true ->
+  get_walk n ptoks = GOk ppath parent ->
   get_walk (subst_at ppath parent' n) ptoks = GOk ppath parent'.
 Proof.
-  induction ptoks as [|tok rest IH]; intros n ppath parent parent' W Hp.
+  induction ptoks as [|tok rest IH]; intros n ppath parent parent' W.
   - cbn in W. inversion W. subst. reflexivity.
   - cbn [get_walk] in W. destruct (get_single_path n tok) as [st c|] eqn:S; [|discriminate].
     destruct (get_walk c rest) as [p' y|] eqn:Wr; [|discriminate]. inversion W. subst. clear W.
-    specialize (IH c p' parent parent' Wr Hp).
-    unfold get_single_path, member_token_ok in S. cbn [negb] in S.
-    destruct n as [| | | | | |l|ms]; try discriminate.
-    + destruct (is_valid_index tok) as [idx sat|] eqn:V; [|discriminate].
-      destruct (idx >=? zlen l) eqn:El; [discriminate|].
-      destruct (znth l idx) as [x|] eqn:Ex; [|discriminate].
-      destruct (elem_is_target x) eqn:Et; [|discriminate]. inversion S. subst. clear S.
-      pose proof (znth_some_range _ _ _ Ex) as R. cbn [subst_at]. replace (idx <? 0) with false by lia.
-      cbn [get_walk]. unfold get_single_path. rewrite V, zlen_map_nth, El.
-      rewrite znth_nat in * by lia. rewrite (nth_error_map_nth_same _ _ _ _ Ex).
-      rewrite subst_nonnull by assumption. rewrite IH. reflexivity.
-    + rewrite object_get_member in S. destruct (member ms (unescape_in_place tok)) as [x|] eqn:Ex; [|discriminate].
-      inversion S. subst. clear S. cbn [subst_at get_walk]. unfold get_single_path, member_token_ok. cbn [negb].
+    specialize (IH c p' parent parent' Wr).
+    destruct (gsp_ok_inv _ _ _ _ S) as [(l & idx & sat & -> & V & -> & Ex) | (ms & -> & V & -> & Ex)].
+    + pose proof (znth_some_range _ _ _ Ex) as R. cbn [subst_at]. replace (idx <? 0) with false by lia.
+      cbn [get_walk]. unfold get_single_path. rewrite V, zlen_map_nth.
+      replace (idx >=? zlen l) with false by lia.
+      rewrite znth_nat in * by lia. rewrite (nth_error_map_nth_same _ _ _ _ Ex), IH. reflexivity.
+    + cbn [subst_at get_walk]. unfold get_single_path. rewrite V. cbn [negb].
       rewrite object_get_member, (member_map_member_same _ _ _ _ Ex), IH. reflexivity.
 Qed.
 
@@ -825,32 +778,18 @@ Definition set_site (t : jv) (p : list byte) : option (loc * jv * list byte) :=
 Definition is_append_site (t : jv) (p : list byte) : bool :=
   match set_site t p with Some (_, JArr _, tok) => is_dash tok | _ => false end.
 
-(* the defect sites that separate set from a following get *)
-Definition stg_guard (t : jv) (p : list byte) (v : jv) : bool :=
-  match set_site t p with
-  | Some (_, JArr _, _) => elem_is_target v            (* a JSON null element is not found again *)
-  | Some (_, JObj _, tok) => bytes_eqb (unescape_in_place tok) (set_member_name tok)
-                                                        (* get unescapes the token, set did not *)
-  | _ => true
-  end.
-
-Lemma walk_ok_container n tok rest path x : get_walk n (tok :: rest) = GOk path x -> elem_is_target n = true.
-Proof.
-  cbn [get_walk]. unfold get_single_path, member_token_ok. cbn [negb].
-  destruct n; try discriminate; reflexivity.
-Qed.
-
-Theorem set_then_get_partial : forall al t p v t',
-  ptr_set al t p v = SOk t' -> t' <> JNull -> is_append_site t p = false -> stg_guard t p v = true ->
+(* a following lookup of the same pointer returns the value just set *)
+Theorem set_then_get : forall al t p v t',
+  ptr_set al t p v = SOk t' -> t' <> JNull -> is_append_site t p = false ->
   exists path, ptr_get t' p = GOk path v /\ node_at t' path = Some v.
 Proof.
-  intros al t p v t' Hs Hnn Happ G.
+  intros al t p v t' Hs Hnn Happ.
   assert (Hg : exists path, ptr_get t' p = GOk path v).
   2:{ destruct Hg as [path Hg]. exists path. split; [exact Hg|]. eapply get_returns_node_at_path; eauto. }
   unfold ptr_get. replace (is_null t') with false by (destruct t'; congruence || reflexivity).
   unfold ptr_set in Hs. destruct p as [|c s].
   { cbn in Hs. inversion Hs. subst. eauto. }
-  unfold is_append_site, stg_guard, set_site in *. unfold get_recursive.
+  unfold is_append_site, set_site in *. unfold get_recursive.
   destruct (c =? 47) eqn:Ec.
   2:{ unfold ptr_set_with_array_cb in Hs. rewrite Ec in Hs. discriminate. }
   apply Z.eqb_eq in Ec. subst c. rewrite ptr_set_unfold in Hs.
@@ -859,12 +798,7 @@ Proof.
   destruct (get_walk t ptoks) as [ppath parent|] eqn:W; [|discriminate].
   destruct (set_single_path array_put_idx_cb al parent tok v) as [parent'|] eqn:S; [|discriminate].
   inversion Hs. subst t'. clear Hs.
-  assert (Hp' : elem_is_target parent' = true).
-  { unfold set_single_path in S. destruct parent; try discriminate.
-    - destruct (is_dash tok); [destruct (array_add al l v)|destruct (is_valid_index tok) as [idx sat|]; [destruct (array_put_idx_cb al l idx v)|]];
-        inversion S; reflexivity.
-    - destruct (negb (member_token_ok tok)); inversion S; reflexivity. }
-  rewrite walk_app, (walk_subst _ _ _ _ _ W Hp'). cbn [get_walk].
+  rewrite walk_app, (walk_subst _ _ _ _ parent' W). cbn [get_walk].
   unfold set_single_path in S. destruct parent as [| | | | | |l|ms]; try discriminate.
   - rewrite Happ in S. destruct (is_valid_index tok) as [idx sat|] eqn:V; [|discriminate].
     pose proof (is_valid_index_nonneg _ _ _ V) as Hi.
@@ -874,12 +808,11 @@ Proof.
       destruct (idx + 1 >? SIZE_MAX / 8); [discriminate|]. destruct (al (idx + 1)); inversion S; reflexivity. }
     subst parent'. unfold get_single_path. rewrite V.
     pose proof (zlen_array_put l idx v Hi). replace (idx >=? zlen (array_put l idx v)) with false by lia.
-    rewrite znth_array_put_same by lia. rewrite G. eauto.
-  - unfold member_token_ok in *. cbn [negb] in S. inversion S. subst parent'.
-    unfold get_single_path, member_token_ok. cbn [negb]. apply bytes_eqb_eq in G. rewrite G.
+    rewrite znth_array_put_same by lia. eauto.
+  - destruct (is_valid_escaping tok) eqn:V; cbn [negb] in S; [|discriminate]. inversion S. subst parent'.
+    unfold get_single_path. rewrite V. cbn [negb].
     rewrite object_get_member, member_object_add_same. eauto.
 Qed.
-
 (* ================================================================ set: the frame *)
 
 (* neither location is an ancestor of (or equal to) the other *)
@@ -986,16 +919,10 @@ Proof.
   - cbn [get_walk] in W. destruct (get_single_path n tok) as [st c|] eqn:S; [|discriminate].
     destruct (get_walk c rest) as [p' y|] eqn:Wr; [|discriminate]. inversion W. subst. clear W.
     specialize (IH c p' parent parent' s Wr F).
-    unfold get_single_path, member_token_ok in S. cbn [negb] in S.
-    destruct n as [| | | | | |l|ms]; try discriminate.
-    + destruct (is_valid_index tok) as [idx sat|] eqn:V; [|discriminate].
-      destruct (idx >=? zlen l) eqn:El; [discriminate|].
-      destruct (znth l idx) as [x|] eqn:Ex; [|discriminate].
-      destruct (elem_is_target x) eqn:Et; [|discriminate]. inversion S. subst. clear S.
-      pose proof (znth_some_range _ _ _ Ex) as R. cbn [subst_at app]. replace (idx <? 0) with false by lia.
+    destruct (gsp_ok_inv _ _ _ _ S) as [(l & idx & sat & -> & V & -> & Ex) | (ms & -> & V & -> & Ex)].
+    + pose proof (znth_some_range _ _ _ Ex) as R. cbn [subst_at app]. replace (idx <? 0) with false by lia.
       apply frame_lift_arr with (c := c); assumption.
-    + rewrite object_get_member in S. destruct (member ms (unescape_in_place tok)) as [x|] eqn:Ex; [|discriminate].
-      inversion S. subst. clear S. cbn [subst_at app]. apply frame_lift_obj with (c := c); assumption.
+    + cbn [subst_at app]. apply frame_lift_obj with (c := c); assumption.
 Qed.
 
 Lemma node_at_app : forall a n b,
@@ -1018,7 +945,7 @@ Definition set_loc (t : jv) (p : list byte) : option loc :=
                | IOk idx _ => Some (ppath ++ [inr idx])
                | IErr _ => None
                end
-      | Some (ppath, JObj _, tok) => Some (ppath ++ [inl (set_member_name tok)])
+      | Some (ppath, JObj _, tok) => Some (ppath ++ [inl (unescape_in_place tok)])
       | _ => None
       end
   end.
@@ -1042,16 +969,15 @@ Proof.
   assert (Hcore : exists st, (match parent with
                               | JArr l => if is_dash tok then Some (ppath ++ [inr (zlen l)])
                                           else match is_valid_index tok with IOk idx _ => Some (ppath ++ [inr idx]) | IErr _ => None end
-                              | JObj _ => Some (ppath ++ [inl (set_member_name tok)])
+                              | JObj _ => Some (ppath ++ [inl (unescape_in_place tok)])
                               | _ => None end) = Some (ppath ++ [st])
-                             /\ node_at parent' [st] = Some v /\ frame_rel parent parent' [st]
-                             /\ elem_is_target parent' = true).
+                             /\ node_at parent' [st] = Some v /\ frame_rel parent parent' [st]).
   { unfold set_single_path in S. destruct parent as [| | | | | |l|ms]; try discriminate.
     - destruct (is_dash tok) eqn:Ed.
       + unfold array_add in S. destruct (al (zlen l + 1)); [|discriminate]. inversion S. subst parent'.
         pose proof (zlen_nonneg l) as Hl. exists (inr (zlen l)). rewrite <- array_put_append.
         split; [reflexivity|]. split; [cbn; rewrite znth_array_put_same by lia; reflexivity|].
-        split; [apply frame_arr; lia|reflexivity].
+        apply frame_arr; lia.
       + destruct (is_valid_index tok) as [idx sat|] eqn:V; [|discriminate].
         pose proof (is_valid_index_nonneg _ _ _ V) as Hi.
         assert (Hl : parent' = JArr (array_put l idx v)).
@@ -1059,14 +985,32 @@ Proof.
           destruct (idx <? zlen l); [inversion S; reflexivity|].
           destruct (idx + 1 >? SIZE_MAX / 8); [discriminate|]. destruct (al (idx + 1)); inversion S; reflexivity. }
         subst parent'. exists (inr idx). split; [reflexivity|].
-        split; [cbn; rewrite znth_array_put_same by lia; reflexivity|]. split; [apply frame_arr; lia|reflexivity].
-    - unfold member_token_ok in S. cbn [negb] in S. inversion S. subst parent'.
-      exists (inl (set_member_name tok)). split; [reflexivity|].
-      split; [cbn; rewrite member_object_add_same; reflexivity|]. split; [apply frame_obj|reflexivity]. }
-  destruct Hcore as (st & Hloc & Hv & Hf & Hp').
+        split; [cbn; rewrite znth_array_put_same by lia; reflexivity|]. apply frame_arr; lia.
+    - destruct (negb (is_valid_escaping tok)); [discriminate|]. inversion S. subst parent'.
+      exists (inl (unescape_in_place tok)). split; [reflexivity|].
+      split; [cbn; rewrite member_object_add_same; reflexivity|]. apply frame_obj. }
+  destruct Hcore as (st & Hloc & Hv & Hf).
   exists (ppath ++ [st]). split; [exact Hloc|]. split.
-  - rewrite node_at_app. rewrite (walk_node_at _ _ _ _ (walk_subst _ _ _ _ _ W Hp')). exact Hv.
+  - rewrite node_at_app. rewrite (walk_node_at _ _ _ _ (walk_subst _ _ _ _ parent' W)). exact Hv.
   - eapply frame_walk; eauto.
+Qed.
+
+(* ================================================================ get_internal (for json_patch.c) *)
+
+(* json_pointer_get is json_pointer_get_internal with the parent information dropped *)
+Theorem get_internal_get : forall t p,
+  match ptr_get_internal t p with
+  | GIOk r => ptr_get t p = GOk (r_path r) (r_obj r)
+  | GIErr e => ptr_get t p = GErr e
+  end.
+Proof.
+  intros t p. unfold ptr_get_internal, ptr_get. destruct (is_null t); [reflexivity|].
+  destruct p as [|c s]; [reflexivity|]. unfold get_recursive. destruct (c =? 47); [|reflexivity].
+  pose proof (tokens_split_last s) as Ht. set (toks := split_slash s) in *.
+  destruct (get_walk t toks) as [path n|e] eqn:W.
+  - destruct (get_walk t (removelast toks)) as [ppath parent|e'] eqn:Wp; [reflexivity|].
+    exfalso. rewrite Ht, walk_app, Wp in W. discriminate.
+  - destruct (get_walk t (removelast toks)); reflexivity.
 Qed.
 
 (* ================================================================ printf variants, side effects *)
@@ -1106,108 +1050,52 @@ Proof.
   - destruct (ptr_setf al t out v); intros H; inversion H; auto.
 Qed.
 
-(* ================================================================ the full-strength statements *)
-
-Definition get_conforms_stmt : Prop :=
-  forall t p, t <> JNull ->
-  match ptr_get t p with
-  | GOk path n => spec_get t p = Some (path, n)
-  | GErr e => spec_get t p = None /\ (e = ENOENT \/ e = EINVAL)
-  end.
-
-Definition set_places_exactly_stmt : Prop :=
-  forall al t p v,
-  match ptr_set al t p v with
-  | SOk t' => spec_set t p v = Some t'
-  | SErr e => (spec_set t p v = None /\ (e = ENOENT \/ e = EINVAL)) \/ no_room al e
-  end.
-
-Definition set_then_get_stmt : Prop :=
-  forall al t p v t',
-  ptr_set al t p v = SOk t' -> t' <> JNull -> is_append_site t p = false ->
-  exists path, ptr_get t' p = GOk path v.
-
-(* ---------------------------------------------------------------- witnesses *)
+(* ================================================================ examples (non-vacuity) *)
 From Coq Require Import String Ascii.
 
 Definition bs (s : string) : list byte := map (fun c => Z.of_N (N_of_ascii c)) (list_ascii_of_string s).
 Definition room : alloc := fun _ => true.
 
-(* {"a":[null]}, "/a/0": RFC 6901 reaches the null element; the code says ENOENT *)
-Definition w_null_t := JObj [(bs "a", JArr [JNull])].
-Definition w_null_p := bs "/a/0".
+(* The four inputs on which json_pointer.c used to leave RFC 6901 (fixed in /repo by the
+   commits named in known_findings.json), now as examples of the repaired behaviour. *)
 
-Theorem get_null_elem_refuted :
-  exists t p, t <> JNull /\ get_guard t p = false /\
-    spec_get t p = Some ([inl (bs "a"); inr 0], JNull) /\ ptr_get t p = GErr ENOENT.
-Proof. exists w_null_t, w_null_p. split; [discriminate|]. vm_compute. auto. Qed.
+(* {"a":[null]}, "/a/0": the JSON null element is the target *)
+Lemma null_element_is_target :
+  let t := JObj [(bs "a", JArr [JNull])] in
+  get_repr t (bs "/a/0") = true /\
+  ptr_get t (bs "/a/0") = GOk [inl (bs "a"); inr 0] JNull /\
+  spec_get t (bs "/a/0") = Some ([inl (bs "a"); inr 0], JNull) /\
+  (* and a value set to null is found again *)
+  ptr_set room (JArr [JInt 1]) (bs "/0") JNull = SOk (JArr [JNull]) /\
+  ptr_get (JArr [JNull]) (bs "/0") = GOk [inr 0] JNull.
+Proof. vm_compute. auto 10. Qed.
 
-(* {"a":[7]}, "/a/": the empty token is no array index; the code returns element 0 *)
-Definition w_empty_t := JObj [(bs "a", JArr [JInt 7])].
-Definition w_empty_p := bs "/a/".
+(* {"a":[7]}, "/a/": the empty token is not an index, for get and for set *)
+Lemma empty_token_is_no_index :
+  let t := JObj [(bs "a", JArr [JInt 7])] in
+  ptr_get t (bs "/a/") = GErr EINVAL /\ spec_get t (bs "/a/") = None /\
+  ptr_set room t (bs "/a/") (JInt 9) = SErr EINVAL /\ spec_set t (bs "/a/") (JInt 9) = None /\
+  (* on an object the empty token is the member "" *)
+  ptr_set room (JObj []) (bs "/") (JInt 9) = SOk (JObj [(bs "", JInt 9)]).
+Proof. vm_compute. auto 10. Qed.
 
-Theorem get_empty_index_refuted :
-  exists t p, t <> JNull /\ get_guard t p = false /\
-    spec_get t p = None /\ ptr_get t p = GOk [inl (bs "a"); inr 0] (JInt 7).
-Proof. exists w_empty_t, w_empty_p. split; [discriminate|]. vm_compute. auto. Qed.
+(* {}, "/x~1y" := 1: the member is "x/y", and the same pointer finds it *)
+Lemma set_unescapes_last_token :
+  ptr_set room (JObj []) (bs "/x~1y") (JInt 1) = SOk (JObj [(bs "x/y", JInt 1)]) /\
+  spec_set (JObj []) (bs "/x~1y") (JInt 1) = Some (JObj [(bs "x/y", JInt 1)]) /\
+  ptr_get (JObj [(bs "x/y", JInt 1)]) (bs "/x~1y") = GOk [inl (bs "x/y")] (JInt 1) /\
+  ptr_set room (JObj [(bs "m~n", JInt 8)]) (bs "/m~0n") (JInt 9) = SOk (JObj [(bs "m~n", JInt 9)]).
+Proof. vm_compute. auto 10. Qed.
 
-(* {"~2":1}, "/~2": not a JSON Pointer (section 3); the code finds the member "~2" *)
-Definition w_esc_t := JObj [(bs "~2", JInt 1)].
-Definition w_esc_p := bs "/~2".
+(* {"~2":1}, "/~2" and "/b~": not JSON Pointers (RFC 6901 section 3) *)
+Lemma invalid_escape_is_rejected :
+  let t := JObj [(bs "~2", JInt 1)] in
+  ptr_get t (bs "/~2") = GErr EINVAL /\ spec_get t (bs "/~2") = None /\
+  ptr_get t (bs "/~02") = GOk [inl (bs "~2")] (JInt 1) /\
+  ptr_set room (JObj []) (bs "/b~") (JInt 5) = SErr EINVAL /\ spec_set (JObj []) (bs "/b~") (JInt 5) = None.
+Proof. vm_compute. auto 10. Qed.
 
-Theorem get_invalid_escape_refuted :
-  exists t p, t <> JNull /\ get_guard t p = false /\
-    spec_get t p = None /\ ptr_get t p = GOk [inl (bs "~2")] (JInt 1).
-Proof. exists w_esc_t, w_esc_p. split; [discriminate|]. vm_compute. auto. Qed.
-
-Theorem get_conforms_refuted : ~ get_conforms_stmt.
-Proof.
-  intros H. specialize (H w_null_t w_null_p ltac:(discriminate)). vm_compute in H. destruct H as [H _]. discriminate.
-Qed.
-
-(* {}, "/x~1y" := 1: the member must be "x/y"; the code creates "x~1y", and the following
-   lookup of the same pointer fails *)
-Definition w_set_p := bs "/x~1y".
-
-Theorem set_escaped_last_refuted :
-  exists t p v t', set_guard t p = false /\ stg_guard t p v = false /\
-    ptr_set room t p v = SOk t' /\ t' = JObj [(bs "x~1y", v)] /\
-    spec_set t p v = Some (JObj [(bs "x/y", v)]) /\
-    ptr_get t' p = GErr ENOENT.
-Proof. exists (JObj []), w_set_p, (JInt 1), (JObj [(bs "x~1y", JInt 1)]). vm_compute. auto 10. Qed.
-
-(* {"a":[7]}, "/a/" := 9: no place; the code overwrites element 0 *)
-Theorem set_empty_index_refuted :
-  exists t p v t', set_guard t p = false /\
-    ptr_set room t p v = SOk t' /\ t' = JObj [(bs "a", JArr [v])] /\ spec_set t p v = None.
-Proof. exists w_empty_t, w_empty_p, (JInt 9), (JObj [(bs "a", JArr [JInt 9])]). vm_compute. auto. Qed.
-
-(* {}, "/b~" := 5: not a JSON Pointer; the code creates the member "b~" *)
-Theorem set_invalid_escape_refuted :
-  exists t p v t', set_guard t p = false /\
-    ptr_set room t p v = SOk t' /\ t' = JObj [(bs "b~", v)] /\ spec_set t p v = None.
-Proof. exists (JObj []), (bs "/b~"), (JInt 5), (JObj [(bs "b~", JInt 5)]). vm_compute. auto. Qed.
-
-Theorem set_places_exactly_refuted : ~ set_places_exactly_stmt.
-Proof.
-  intros H. specialize (H room (JObj []) w_set_p (JInt 1)). vm_compute in H. discriminate.
-Qed.
-
-(* [1], "/0" := null: placed, but the following lookup does not find the null element *)
-Theorem set_then_get_null_refuted :
-  exists t p v t', stg_guard t p v = false /\ is_append_site t p = false /\
-    ptr_set room t p v = SOk t' /\ t' = JArr [JNull] /\ ptr_get t' p = GErr ENOENT.
-Proof. exists (JArr [JInt 1]), (bs "/0"), JNull, (JArr [JNull]). vm_compute. auto 10. Qed.
-
-Theorem set_then_get_refuted : ~ set_then_get_stmt.
-Proof.
-  intros H. destruct (H room (JObj []) w_set_p (JInt 1) (JObj [(bs "x~1y", JInt 1)])) as [path Hp];
-    try (vm_compute; reflexivity); [discriminate|]. vm_compute in Hp. discriminate.
-Qed.
-
-(* ---------------------------------------------------------------- non-vacuity *)
-
-(* RFC 6901 section 5: the example document and its twelve pointers, inside every guard *)
+(* RFC 6901 section 5: the example document and its twelve pointers *)
 Definition rfc_doc : jv :=
   JObj [ (bs "foo", JArr [JStr (bs "bar"); JStr (bs "baz")]); (bs "", JInt 0); (bs "a/b", JInt 1);
          (bs "c%d", JInt 2); (bs "e^f", JInt 3); (bs "g|h", JInt 4); (bs "i\j", JInt 5);
@@ -1219,7 +1107,7 @@ Definition rfc_cases : list (list byte * jv) :=
     (bs "/i\j", JInt 5); (bs "/k" ++ [34] ++ bs "l", JInt 6); (bs "/ ", JInt 7); (bs "/m~0n", JInt 8) ].
 
 Definition rfc_case_ok (c : list byte * jv) : bool :=
-  get_guard rfc_doc (fst c) &&
+  get_repr rfc_doc (fst c) &&
   match ptr_get rfc_doc (fst c), spec_get rfc_doc (fst c) with
   | GOk path n, Some (path', n') =>
       match node_at rfc_doc path with Some _ => true | None => false end &&
@@ -1230,12 +1118,22 @@ Definition rfc_case_ok (c : list byte * jv) : bool :=
 Lemma rfc_examples_hold : forallb rfc_case_ok rfc_cases = true.
 Proof. vm_compute. reflexivity. Qed.
 
-(* a set inside every guard, with an escaped token before the last one, an index beyond the
-   end, and the following lookup *)
+(* get_internal on the RFC document: the parent, the last token as written, the index *)
+Lemma get_internal_example :
+  ptr_get_internal rfc_doc (bs "/foo/1") =
+    GIOk (mk_get_result [inl (bs "foo"); inr 1] (JStr (bs "baz"))
+            (Some ([inl (bs "foo")], JArr [JStr (bs "bar"); JStr (bs "baz")])) None 1) /\
+  (match ptr_get_internal rfc_doc (bs "/m~0n") with
+   | GIOk r => r_path r = [inl (bs "m~n")] /\ r_key_in_parent r = Some (bs "m~0n") /\ r_obj r = JInt 8
+   | GIErr _ => False
+   end).
+Proof. vm_compute. auto. Qed.
+
+(* a set with an escaped inner token and an index beyond the end *)
 Lemma set_example :
   let t := JObj [(bs "a/b", JObj [(bs "l", JArr [JInt 0])])] in
   let p := bs "/a~1b/l/3" in
-  set_guard t p = true /\ stg_guard t p (JInt 7) = true /\ is_append_site t p = false /\
+  set_repr t p = true /\ is_append_site t p = false /\
   ptr_set room t p (JInt 7) = SOk (JObj [(bs "a/b", JObj [(bs "l", JArr [JInt 0; JNull; JNull; JInt 7])])]) /\
   spec_set t p (JInt 7) = Some (JObj [(bs "a/b", JObj [(bs "l", JArr [JInt 0; JNull; JNull; JInt 7])])]) /\
   set_loc t p = Some [inl (bs "a/b"); inl (bs "l"); inr 3].
